@@ -9,6 +9,9 @@ mod pbref;
 mod seeds;
 
 fn main() {
+    // Workers inherit the environment: an aborting worker must not spend seconds
+    // symbolising a backtrace. (Set before any thread exists.)
+    unsafe { std::env::set_var("RUST_BACKTRACE", "0") };
     if let Some(w) = vp_core::isolate::worker_name() {
         match w.as_str() {
             "c38" => c38::worker(),
